@@ -50,6 +50,8 @@ type Pkg struct {
 	ObjOf   map[uint64]types.Object  // inverse
 
 	labelers map[string]*Labeler
+	dirs     []lint.Directive
+	gen      map[string]generated.Generator
 }
 
 type mapImporter map[string]*types.Package
@@ -128,6 +130,7 @@ func (p *Pkg) Analyze() (err error) {
 		return err
 	}
 	p.Result = res.(unused.Result)
+	p.dirs, p.gen = dirs, gen.(map[string]generated.Generator)
 	nodes, objs := unused.VerifGraph(p.Fset, p.Files, p.Types, p.Info, dirs, gen.(map[string]generated.Generator), unused.DefaultOptions)
 	p.Nodes = unused.VerifNodes(nodes)
 	p.Result2 = unused.VerifResults(nodes)
@@ -400,4 +403,11 @@ func (p *Pkg) ResultLabels(keyMode string, objs []unused.Object) []string {
 	}
 	sort.Strings(out)
 	return out
+}
+
+
+// FreshNodes builds the graph once more with the exported API (unused.Graph), for SerializedGraph.Merge, which
+// rewrites the node slices it is given.
+func (p *Pkg) FreshNodes() []unused.Node {
+	return unused.Graph(p.Fset, p.Files, p.Types, p.Info, p.dirs, p.gen, unused.DefaultOptions)
 }
